@@ -477,6 +477,12 @@ func (ck *checker) checkRun(er *execResult) {
 					r.Violate("C04", "charge", "transfer-oog-gas-not-zero", "%s: out-of-gas on the transfer gas argument must leave 0 gas, has %d", where, c.gasAfter)
 				}
 			case cont && c.op == hTransfer && c.r7 == PVM.OK:
+				// the gas limit handed to the receiver (an unsigned 64-bit register) is charged to the sender; a limit
+				// above what is left after the call's own charge cannot be paid: the call must end out-of-gas
+				if c.gasBefore >= 10 && c.regsIn[9] > uint64(c.gasBefore-10) {
+					r.Violate("C04", "oog", "transfer-gas-limit-above-remaining-gas-accepted", "%s: transfer accepted a gas limit of %d with only %d gas left after its charge; it must end out-of-gas", where, c.regsIn[9], c.gasBefore-10)
+					break
+				}
 				want -= int64(c.regsIn[9])
 				fallthrough
 			default:
@@ -490,6 +496,11 @@ func (ck *checker) checkRun(er *execResult) {
 		}
 		// ---------------- C10: the checkpoint copy never changes behind our back ----------------
 		if r.Wants("C10") {
+			// a transfer whose gas limit exceeds the gas that is left runs the invocation out of gas: the results must be
+			// those of the checkpoint; a call that carries on lets everything after the checkpoint survive
+			if cont && c.op == hTransfer && c.r7 == PVM.OK && c.gasBefore >= 10 && c.regsIn[9] > uint64(c.gasBefore-10) {
+				r.Violate("C10", "abort-not-taken", "out-of-gas-on-transfer-gas-limit-not-taken", "%s: the transfer's gas limit %d exceeds the %d gas left, the invocation is out of gas and must fall back to the checkpoint; it carried on", where, c.regsIn[9], c.gasBefore-10)
+			}
 			if c.op == hCheckpoint && cont {
 				if c.y.full() != c.x.full() {
 					r.Violate("C10", "checkpoint", "checkpoint-copy-differs", "%s: checkpoint copy differs from the live context:\n Y %s\n X %s", where, c.y.full(), c.x.full())
@@ -887,6 +898,10 @@ func runOne(r *sim.Run) {
 	}
 	t := r.T
 	if r.Prop == "C04" && t.Prob(1, 4, "refine_table_arm") {
+		if t.Prob(1, 5, "long_block_arm") {
+			runLongBlock(r)
+			return
+		}
 		runRefineGas(r)
 		return
 	}
